@@ -301,6 +301,16 @@ func main() {
 					out.Write(b)
 					out.WriteByte('\n')
 				}
+			} else if probe.Mode == "latewriter" {
+				var lc LateWriterCase
+				if jerr := json.Unmarshal(line, &lc); jerr != nil {
+					fmt.Fprintln(out, `{"name":"?","note":"bad-case"}`)
+				} else {
+					r := runLateWriter(lc)
+					b, _ := json.Marshal(r)
+					out.Write(b)
+					out.WriteByte('\n')
+				}
 			} else if probe.Mode == "hostile-send" {
 				var hc HostileSendCase
 				if jerr := json.Unmarshal(line, &hc); jerr != nil {
